@@ -9,6 +9,8 @@ def table(path, seeded):
         return "(not run yet)\n"
     r = json.load(open(path))
     out = ["| change | repo suite | breaks (intended) | caught by (quick tier, exit 1) | verdict |", "|---|---|---|---|---|"]
+    if seeded:
+        out = ["| change | repo suite | written against | its own check (final code) | other checks that caught it in an all-checks run | verdict |", "|---|---|---|---|---|---|"]
     for name in sorted(r):
         row = r[name]
         if "checks" not in row:
@@ -23,6 +25,9 @@ def table(path, seeded):
         if errs:
             verdict += " (harness error: " + ",".join(errs) + ")"
         suite = row.get("suite") or ("passes (confirmed when adopted)" if seeded else "?")
+        if seeded:
+            out.append(f"| `{name}` | {suite} | {' '.join(exp) or '-'} | {' '.join(caught) or '-'} | {' '.join(row.get('others_in_full_run', [])) or '-'} | {verdict} |")
+            continue
         out.append(f"| `{name}` | {suite} | {' '.join(exp) or '-'} | {' '.join(caught) or '-'} | {verdict} |")
     return "\n".join(out) + "\n"
 
